@@ -5,6 +5,7 @@ package main
 // every reported input on the real code.
 
 import (
+	"encoding/hex"
 	"fmt"
 	"sort"
 	"strings"
@@ -49,6 +50,31 @@ func RunOracles(prop string, cases []GenCase, impl map[string]map[string]string)
 			want := "V:STRING:" + strings.TrimPrefix(gc.Role, "expect:")
 			if kv["prep"] != "ok" || kv["r0"] != want {
 				viol(gc, "string-literal-value", fmt.Sprintf("want r0=%s got prep=%s r0=%s", want, kv["prep"], kv["r0"]))
+			}
+		case gc.Role == "agree:pairs":
+			// the result is an array [x0, y0, x1, y1, …]: every built-in answer next to the answer of the
+			// language's own operators
+			if kv["prep"] != "ok" || !strings.HasPrefix(kv["r0"], "V:ARRAY:") {
+				viol(gc, "builtin-disagrees-with-operators", "expected an array result, got prep="+kv["prep"]+" r0="+kv["r0"])
+				break
+			}
+			txt := unhex(strings.TrimPrefix(kv["r0"], "V:ARRAY:"))
+			els := strings.Split(strings.TrimSuffix(strings.TrimPrefix(txt, "["), "]"), ", ")
+			if len(els)%2 != 0 {
+				viol(gc, "builtin-disagrees-with-operators", "odd number of elements: "+txt)
+				break
+			}
+			for i := 0; i+1 < len(els); i += 2 {
+				// min/max return one of their arguments: compare the printed forms (an int and a float of the
+				// same value print differently, which is what "the smaller ARGUMENT" means)
+				if els[i] != els[i+1] {
+					viol(gc, "builtin-disagrees-with-operators", fmt.Sprintf("element %d: built-in says %s, the language's <= says %s (%s)", i/2, els[i], els[i+1], txt))
+					break
+				}
+			}
+		case gc.Role == "expecttrue":
+			if kv["prep"] != "ok" || kv["r0"] != "V:BOOLEAN:"+hexs("true") {
+				viol(gc, "builtin-contract", "the script states a documented contract and must return true: got prep="+kv["prep"]+" r0="+kv["r0"])
 			}
 		case strings.HasPrefix(gc.Role, "expectint:"):
 			want := "V:INTEGER:" + hexs(strings.TrimPrefix(gc.Role, "expectint:"))
@@ -169,4 +195,12 @@ func RunOracles(prop string, cases []GenCase, impl map[string]map[string]string)
 		}
 	}
 	return out
+}
+
+func unhex(h string) string {
+	b, err := hex.DecodeString(h)
+	if err != nil {
+		return ""
+	}
+	return string(b)
 }
